@@ -505,8 +505,8 @@ PROVED = ["see coq/props/Prop_C12.v (theorem list in obligation_list); all state
           "space and quantify over all k"]
 VALIDATED = [
     "finite termination in n steps (stretch; only validated numerically: error after n updates at rounding level)",
-    "span{p_i} = Krylov space K_k(PA, P r0): proved optimality is over x0 + span{p_0..p_{k-1}}; equality with the polynomial "
-    "Krylov space is validated by the Krylov least-squares oracle",
+    "Krylov space: proved is K_k(PA, P r0) <= span{p_0..p_{k-1}} and hence optimality over x0 + K_k (C12_cg_krylov_optimal); "
+    "the numerical Krylov least-squares oracle checks the same statement on the implementation",
     "in-place update of the caller's array (object identity checked on every trajectory; the alias IR is not built)",
     "floating-point behaviour (loss of orthogonality) is outside the theorems; bounded by the oracle tolerances",
 ]
